@@ -407,3 +407,518 @@ func forwardToExtendRule(p *Prog, r *Report, id string) {
 		r.OK(site, p.PosStr(fi.Decl.Pos()), "def ≠ nil ⇒ delegateMethod on every successful path")
 	}
 }
+
+// ---------------------------------------------------------------------------
+// C07.R12: element and entry conversions receive the extended error path
+
+func pathExtendedPerComponentRule(p *Prog, r *Report, id string) {
+	r.Rule(id, "the location of a failing element names its index / key: in List.Assign every gen.Build/gen.Assign call receives as ErrorPath the result of <path>.Index(…), in Map.Assign the result of <path>.Key(…) — never the container's own path or a value that is only sometimes extended (a φ of the two)", 3)
+	for _, k := range []struct{ fn, want string }{
+		{"builder.(*List).Assign", "Index"},
+		{"builder.(*Map).Assign", "Key"},
+	} {
+		fi, _ := needFunc(p, r, k.fn)
+		if fi == nil {
+			continue
+		}
+		n := 0
+		for _, rf := range p.Region(k.fn) {
+			sf := p.SSAFunc(rf)
+			if sf == nil {
+				continue
+			}
+			allInstrs(sf, true, func(in ssa.Instruction) {
+				c, ok := in.(ssa.CallInstruction)
+				if !ok || !c.Common().IsInvoke() {
+					return
+				}
+				com := c.Common()
+				if (com.Method.Name() != "Build" && com.Method.Name() != "Assign") || !isNamed(com.Value.Type(), modPath+"/builder", "Generator") {
+					return
+				}
+				for _, a := range com.Args {
+					if !isNamed(a.Type(), modPath+"/builder", "ErrorPath") {
+						continue
+					}
+					n++
+					site := fmt.Sprintf("%s/gen.%s#%d path extended by %s", k.fn, com.Method.Name(), n, k.want)
+					v := stripConv(a)
+					call, isCall := v.(*ssa.Call)
+					if isCall && ssaCalleeObj(call) != nil && ssaCalleeObj(call).Name() == k.want && recvTypeName(ssaCalleeObj(call)) == "ErrorPath" {
+						r.OK(site, p.PosStr(in.Pos()), "ErrorPath."+k.want+"(…)")
+					} else {
+						r.Bad(site, p.PosStr(in.Pos()), "the component conversion receives `"+v.String()+"` as error path, not the result of ErrorPath."+k.want+"(…): for some inputs the reported location stops at the container and does not name the failing element")
+					}
+				}
+			})
+		}
+		if n == 0 {
+			r.Bad(k.fn+"/component conversions", p.PosStr(fi.Decl.Pos()), "no gen.Build/gen.Assign call with an ErrorPath found")
+		}
+	}
+}
+
+// ---------------------------------------------------------------------------
+// C05.R15 / C10.R10: entries of Method.Fields are only created by the get-or-create accessor
+
+func fieldsAccessorRule(p *Prog, r *Report, id string) {
+	r.Rule(id, "settings for one target field accumulate in one entry: the only function that stores into a config.Method.Fields map is the get-or-create accessor config.(*Method).Field, and it stores only on the not-found branch of its own lookup — a later `map` line can never replace the entry that already holds `ignore` (or vice versa), so the outcome does not depend on losing an earlier line", 1)
+	n := 0
+	for _, fi := range p.Funcs {
+		sf := p.SSAFunc(fi)
+		if sf == nil || !p.IsOwnPath(fi.Pkg.PkgPath) {
+			continue
+		}
+		allInstrs(sf, false, func(in ssa.Instruction) {
+			mu, ok := in.(*ssa.MapUpdate)
+			if !ok || !loadsField(mu.Map, "Fields") {
+				return
+			}
+			mt, ok := mu.Map.Type().Underlying().(*types.Map)
+			if !ok {
+				return
+			}
+			pt, ok := mt.Elem().(*types.Pointer)
+			if !ok || !isNamed(pt.Elem(), modPath+"/config", "FieldMapping") {
+				return
+			}
+			n++
+			site := fmt.Sprintf("%s/Fields[…] = …#%d", fi.Name(), n)
+			if fi.Lit == nil && fi.Obj != nil && fi.Obj.Name() == "Field" && recvTypeName(fi.Obj) == "Method" {
+				guarded := dominatedByEdge(mu.Block(), false, func(cond ssa.Value) bool {
+					ex, isEx := cond.(*ssa.Extract)
+					if !isEx || ex.Index != 1 {
+						return false
+					}
+					l, isL := ex.Tuple.(*ssa.Lookup)
+					return isL && l.CommaOk && loadsField(l.X, "Fields")
+				})
+				if guarded {
+					r.OK(site, p.PosStr(in.Pos()), "only when no entry exists yet")
+				} else {
+					r.Bad(site, p.PosStr(in.Pos()), "the accessor overwrites an existing entry: settings recorded earlier for the field are lost")
+				}
+				return
+			}
+			r.Bad(site, p.PosStr(in.Pos()), "an entry of Method.Fields is assigned outside the get-or-create accessor Method.Field: an entry created by an earlier setting line for the same target field (ignore, map, …) is replaced and its flags are lost")
+		})
+	}
+	if n == 0 {
+		r.Unresolved("stores into config.Method.Fields")
+	}
+}
+
+// ---------------------------------------------------------------------------
+// C14.R14: goverter:context names are consulted whatever arg:context:regex says
+
+func contextNamesAlwaysConsultedRule(p *Prog, r *Report, id string) {
+	r.Rule(id, "a parameter is a context if it was declared with goverter:context ARG *or* matches arg:context:regex: in method.Parse no path classifies a parameter as source / additional source (store of ArgUseSource / ArgUseMultiSource into Arg.Use) without having looked the name up in LocalOpts.Context; a helper counts as the lookup only if each of its returns that may be false passes the lookup", 2)
+	fi, sf := needFunc(p, r, "method.Parse")
+	if fi == nil {
+		return
+	}
+	isCtxLookup := func(in ssa.Instruction) bool {
+		l, ok := in.(*ssa.Lookup)
+		if !ok {
+			return false
+		}
+		if loadsField(l.X, "Context") {
+			if f, isF := l.X.(*ssa.Field); isF {
+				return isNamed(f.X.Type(), modPath+"/method", "LocalOpts")
+			}
+			if u, isU := l.X.(*ssa.UnOp); isU {
+				if fa, isFA := u.X.(*ssa.FieldAddr); isFA {
+					if pt, isP := fa.X.Type().Underlying().(*types.Pointer); isP {
+						return isNamed(pt.Elem(), modPath+"/method", "LocalOpts")
+					}
+				}
+			}
+		}
+		return false
+	}
+	// helpers that always consult the table before answering false
+	consults := map[*ssa.Function]bool{}
+	for _, rf := range p.Region("method.Parse") {
+		h := p.SSAFunc(rf)
+		if h == nil || h == sf || len(h.Blocks) == 0 {
+			continue
+		}
+		has := false
+		allInstrs(h, false, func(in ssa.Instruction) {
+			if isCtxLookup(in) {
+				has = true
+			}
+		})
+		if !has {
+			continue
+		}
+		leak := existsPath(h.Blocks[0], 0, func(in ssa.Instruction) bool {
+			ret, ok := in.(*ssa.Return)
+			if !ok {
+				return false
+			}
+			for _, res := range ret.Results {
+				if c, isC := res.(*ssa.Const); isC && c.Value != nil && c.Value.String() == "true" {
+					return false
+				}
+			}
+			return true
+		}, isCtxLookup)
+		if leak == nil {
+			consults[h] = true
+		} else {
+			r.Note("method."+rf.Name()+"/consults goverter:context names", p.PosStr(leak.Pos()), "this helper can answer without the lookup in LocalOpts.Context — it does not count as the lookup")
+		}
+	}
+	consult := func(in ssa.Instruction) bool {
+		if isCtxLookup(in) {
+			return true
+		}
+		if c, ok := in.(ssa.CallInstruction); ok {
+			if callee := c.Common().StaticCallee(); callee != nil && consults[callee] {
+				return true
+			}
+		}
+		return false
+	}
+	want := map[string]bool{}
+	if mp := p.Pkg("method"); mp != nil {
+		for _, nme := range []string{"ArgUseSource", "ArgUseMultiSource"} {
+			if c, ok := mp.Types.Scope().Lookup(nme).(*types.Const); ok {
+				want[c.Val().ExactString()] = true
+			}
+		}
+	}
+	if len(want) != 2 {
+		r.Unresolved("method.ArgUseSource / ArgUseMultiSource")
+		return
+	}
+	n := 0
+	nLook := 0
+	allInstrs(sf, true, func(in ssa.Instruction) {
+		if isCtxLookup(in) {
+			nLook++
+		}
+	})
+	r.Analysed["context_name_lookups_in_Parse"] = nLook
+	allInstrs(sf, true, func(in ssa.Instruction) {
+		st, ok := in.(*ssa.Store)
+		if !ok {
+			return
+		}
+		fa, ok := st.Addr.(*ssa.FieldAddr)
+		if !ok || fieldName(fa) != "Use" {
+			return
+		}
+		c, ok := st.Val.(*ssa.Const)
+		if !ok || c.Value == nil || !want[c.Value.ExactString()] {
+			return
+		}
+		n++
+		site := fmt.Sprintf("method.Parse/Arg.Use = %s#%d after the context lookup", c.Value.ExactString(), n)
+		if in.Parent() != sf {
+			r.Note(site, p.PosStr(in.Pos()), "stored inside a closure")
+			return
+		}
+		goal := func(x ssa.Instruction) bool { return x == in }
+		if w := existsPathPhi(sf.Blocks[0], goal, consult); w != nil {
+			r.Bad(site, p.PosStr(in.Pos()), "a path classifies the parameter as a conversion source without having consulted the goverter:context names (LocalOpts.Context): with arg:context:regex configured, an explicitly declared context that the regex does not match becomes a second source")
+		} else {
+			r.OK(site, p.PosStr(in.Pos()), "every path passes the lookup in LocalOpts.Context")
+		}
+	})
+	if n == 0 {
+		r.Unresolved("stores of ArgUseSource / ArgUseMultiSource in method.Parse")
+	}
+}
+
+// existsPathPhi is existsPath from the head of block b, but a branch on a φ of the same block (the value form of
+// `a || b` / `a && b`) follows only the successor that agrees with the constant the φ has for the edge taken.
+func existsPathPhi(b *ssa.BasicBlock, goal, avoid func(ssa.Instruction) bool) ssa.Instruction {
+	type state struct{ b, from *ssa.BasicBlock }
+	seen := map[state]bool{}
+	var walk func(b, from *ssa.BasicBlock) ssa.Instruction
+	walk = func(b, from *ssa.BasicBlock) ssa.Instruction {
+		for _, in := range b.Instrs {
+			if avoid != nil && avoid(in) {
+				return nil
+			}
+			if goal(in) {
+				return in
+			}
+		}
+		succs := b.Succs
+		if iff, ok := b.Instrs[len(b.Instrs)-1].(*ssa.If); ok && from != nil && len(b.Succs) == 2 {
+			if phi, isPhi := iff.Cond.(*ssa.Phi); isPhi && phi.Block() == b {
+				for i, pb := range b.Preds {
+					if pb != from || i >= len(phi.Edges) {
+						continue
+					}
+					if c, isC := phi.Edges[i].(*ssa.Const); isC && c.Value != nil {
+						if c.Value.String() == "true" {
+							succs = b.Succs[:1]
+						} else if c.Value.String() == "false" {
+							succs = b.Succs[1:]
+						}
+					}
+				}
+			}
+		}
+		for _, s := range succs {
+			st := state{s, b}
+			if seen[st] {
+				continue
+			}
+			seen[st] = true
+			if r := walk(s, b); r != nil {
+				return r
+			}
+		}
+		return nil
+	}
+	return walk(b, nil)
+}
+
+// ---------------------------------------------------------------------------
+// C04.R9: only a fresh variable is addressable
+
+func variableFlagRule(p *Prog, r *Report, id string) {
+	r.Rule(id, "JenID.Pointer takes the address of an expression directly when JenID.Variable is set, so the flag may only be true for expressions that are fresh locals of the generated code: Variable is written nowhere but in the composite literals of xtype.VariableID (true) and xtype.OtherID (false) — in particular JenID.Deref never marks `*source` addressable, which would make &(*source) the source's own pointer", 2)
+	n := 0
+	for _, fi := range p.Funcs {
+		sf := p.SSAFunc(fi)
+		if sf == nil || !p.IsOwnPath(fi.Pkg.PkgPath) || strings.Contains(fi.Pkg.PkgPath, "/example") {
+			continue
+		}
+		allInstrs(sf, false, func(in ssa.Instruction) {
+			st, ok := in.(*ssa.Store)
+			if !ok {
+				return
+			}
+			fa, ok := st.Addr.(*ssa.FieldAddr)
+			if !ok || fieldName(fa) != "Variable" {
+				return
+			}
+			pt, ok := fa.X.Type().Underlying().(*types.Pointer)
+			if !ok || !isNamed(pt.Elem(), modPath+"/xtype", "JenID") {
+				return
+			}
+			n++
+			site := fmt.Sprintf("%s/JenID.Variable = …#%d", fi.Name(), n)
+			c, isConst := st.Val.(*ssa.Const)
+			_, fresh := fa.X.(*ssa.Alloc)
+			name := ""
+			if fi.Obj != nil && fi.Lit == nil {
+				name = fi.Obj.Name()
+			}
+			switch {
+			case fresh && isConst && c.Value != nil && ((name == "VariableID" && c.Value.String() == "true") || c.Value.String() == "false"):
+				r.OK(site, p.PosStr(in.Pos()), "constructor literal")
+			default:
+				r.Bad(site, p.PosStr(in.Pos()), "JenID.Variable is written outside the constructors VariableID/OtherID (value "+st.Val.String()+"): an expression that is not a fresh local — e.g. a dereferenced source pointer — becomes addressable, and JenID.Pointer returns &(expr): the target then points into the source")
+			}
+		})
+	}
+	if n < 2 {
+		r.Unresolved("constructor stores of JenID.Variable")
+	}
+}
+
+// ---------------------------------------------------------------------------
+// C11.R14 / C10.R11: an update position alone enables the zero guards
+
+func updatePositionSufficesRule(p *Prog, r *Report, id string) {
+	r.Rule(id, "update:ignoreZeroValueField applies wherever a source is applied on top of an existing value — update methods *and* every position built with AssignTo.Update (default:update, T → *U on top of FUNC's result): evaluated with isUpdate = true, ctx.Conf.UpdateTarget = false, a struct source and IgnoreStructZeroValueField = true, builder.shouldCheckAgainstZero cannot return false — no further setting (DefaultUpdate …) is required", 1)
+	fi, sf := needFunc(p, r, "builder.shouldCheckAgainstZero")
+	if fi == nil {
+		return
+	}
+	var isUpd *ssa.Parameter
+	for _, prm := range sf.Params {
+		if b, ok := prm.Type().Underlying().(*types.Basic); ok && b.Kind() == types.Bool {
+			isUpd = prm
+			break
+		}
+	}
+	if isUpd == nil {
+		r.Unresolved("isUpdate parameter of builder.shouldCheckAgainstZero")
+		return
+	}
+	sc := &absScenario{}
+	sc.assume = func(v ssa.Value, _ func(ssa.Value) absVal) (absVal, bool) {
+		if scOrigin(sc, v) == ssa.Value(isUpd) {
+			return aBool(true), true
+		}
+		if loadsFieldNamed(v, "UpdateTarget") {
+			return aBool(false), true
+		}
+		if loadsFieldNamed(v, "IgnoreStructZeroValueField") {
+			return aBool(true), true
+		}
+		if loadsFieldNamed(v, "Struct") {
+			return aBool(true), true
+		}
+		if loadsFieldNamed(v, "DefaultUpdate") || loadsFieldNamed(v, "UseConstructor") {
+			return aBool(false), true
+		}
+		return aUnknown, false
+	}
+	got := absReach(sf, sc, falseGoal)
+	site := "builder.shouldCheckAgainstZero/isUpdate suffices"
+	if got != nil {
+		r.Bad(site, p.PosStr(got.Pos()), "at an update position (AssignTo.Update) with a struct source and update:ignoreZeroValueField:struct the function can still answer false: the zero guard is left out, so a zero source field overwrites the value FUNC (or the caller) put there")
+	} else {
+		r.OK(site, p.PosStr(fi.Decl.Pos()), "isUpdate ∧ struct ∧ IgnoreStructZeroValueField ⇒ true")
+	}
+}
+
+// ---------------------------------------------------------------------------
+// C07.R13: whoever asks the generator for a conversion has been given the error path
+
+func pathParameterRule(p *Prog, r *Report, id string) {
+	r.Rule(id, "a conversion call can only report an accurate location if the caller was told where it is: every named function of package builder that invokes Generator.Build / Generator.Assign has a parameter of type builder.ErrorPath (not a variadic or optional substitute callers may leave out), so C07.R10's pass-through obligation applies to it and to each of its callers", 10)
+	n := 0
+	for _, fi := range p.Funcs {
+		if fi.Lit != nil || fi.Obj == nil || relPkg(fi.Pkg.PkgPath) != "builder" {
+			continue
+		}
+		sf := p.SSAFunc(fi)
+		if sf == nil {
+			continue
+		}
+		calls := 0
+		var first ssa.Instruction
+		allInstrs(sf, true, func(in ssa.Instruction) {
+			c, ok := in.(ssa.CallInstruction)
+			if !ok || !c.Common().IsInvoke() {
+				return
+			}
+			com := c.Common()
+			if (com.Method.Name() == "Build" || com.Method.Name() == "Assign") && isNamed(com.Value.Type(), modPath+"/builder", "Generator") {
+				calls++
+				if first == nil {
+					first = in
+				}
+			}
+		})
+		if calls == 0 {
+			continue
+		}
+		n++
+		site := fi.Name() + "/has an ErrorPath parameter"
+		sig := fi.Obj.Type().(*types.Signature)
+		has := false
+		for i := 0; i < sig.Params().Len(); i++ {
+			if isNamed(sig.Params().At(i).Type(), modPath+"/builder", "ErrorPath") {
+				if _, isPtr := sig.Params().At(i).Type().(*types.Pointer); !isPtr {
+					has = true
+				}
+			}
+		}
+		if has {
+			r.OK(site, p.PosStr(fi.Decl.Pos()), fmt.Sprintf("%d conversion call(s)", calls))
+		} else {
+			r.Bad(site, p.PosStr(first.Pos()), "this function asks the generator for a conversion but has no builder.ErrorPath parameter: the path it passes on is made up locally or comes from an optional (variadic) argument a caller can leave out — errors from that conversion lose the location of the enclosing field, index or key")
+		}
+	}
+	if n == 0 {
+		r.Unresolved("functions of package builder that call Generator.Build/Assign")
+	}
+}
+
+// ---------------------------------------------------------------------------
+// C15.R14 / C16.R10: load errors of the existing output package do not matter for its name
+
+func outputPackageErrorsIgnoredRule(p *Prog, r *Report, id string) {
+	r.Rule(id, "the existing package at the output location gives its name whether or not it currently type-checks (goverter loads with the build tag that hides its own output, so hand-written files that use the generated code never type-check during the run): in config.resolveOutputPackage (or the function it was inlined into) and its private helpers, the *packages.Package obtained from GetUncheckedPkg is tested against nil only — its Errors / TypeErrors / IllTyped fields are never read", 1)
+	anchor := p.anchorOrCaller("config.resolveOutputPackage")
+	anchorKey := "config.resolveOutputPackage"
+	if p.Func(anchorKey) == nil {
+		anchorKey = inlinedInto[anchorKey]
+	}
+	if anchor == nil {
+		r.Unresolved("config.resolveOutputPackage")
+		return
+	}
+	nLookup, bad := 0, ""
+	for _, rf := range p.Region(anchorKey) {
+		sf := p.SSAFunc(rf)
+		if sf == nil {
+			continue
+		}
+		allInstrs(sf, true, func(in ssa.Instruction) {
+			if c, ok := in.(ssa.CallInstruction); ok && ssaCalleeObj(c) != nil && ssaCalleeObj(c).Name() == "GetUncheckedPkg" {
+				nLookup++
+			}
+			fa, ok := in.(*ssa.FieldAddr)
+			if !ok {
+				return
+			}
+			pt, ok := fa.X.Type().Underlying().(*types.Pointer)
+			if !ok || !isNamed(pt.Elem(), "golang.org/x/tools/go/packages", "Package") {
+				return
+			}
+			switch fieldName(fa) {
+			case "Errors", "TypeErrors", "IllTyped":
+				bad = p.PosStr(in.Pos()) + ": reads " + fieldName(fa) + " of the package found at the output location"
+			}
+		})
+	}
+	site := "config.resolveOutputPackage/load errors ignored"
+	switch {
+	case nLookup == 0:
+		r.Unresolved("GetUncheckedPkg call in the region of config.resolveOutputPackage")
+	case bad != "":
+		r.Bad(site, p.PosStr(anchor.Decl.Pos()), bad+": an existing output package that does not type-check during the run (it usually cannot: its generated half is hidden by the build tag) no longer gives its name, and the emitted file gets the directory-derived package clause next to files that say otherwise")
+	default:
+		r.OK(site, p.PosStr(anchor.Decl.Pos()), fmt.Sprintf("%d unchecked lookup(s); only nil is tested", nLookup))
+	}
+}
+
+// ---------------------------------------------------------------------------
+// C18.R10: the zero value of a basic type names no type
+
+func basicZeroUntypedRule(p *Prog, r *Report, id string) {
+	r.Rule(id, "zero values of basic types are untyped constants (\"\", 0, false, nil): in xtype.ZeroValue and its private helpers no type-rendering function (toCode*, TypeAsJen) receives a *types.Basic — spelling a basic zero value with its type (unsafe.Pointer(nil)) would make the generated file import unsafe for a plain comparison", 1)
+	fi, _ := needFunc(p, r, "xtype.ZeroValue")
+	if fi == nil {
+		return
+	}
+	n, bad := 0, ""
+	for _, rf := range p.Region("xtype.ZeroValue") {
+		sf := p.SSAFunc(rf)
+		if sf == nil {
+			continue
+		}
+		allInstrs(sf, true, func(in ssa.Instruction) {
+			c, ok := in.(ssa.CallInstruction)
+			if !ok || ssaCalleeObj(c) == nil {
+				return
+			}
+			o := ssaCalleeObj(c)
+			if objPkgPath(o) != modPath+"/xtype" || !(strings.HasPrefix(o.Name(), "toCode") || o.Name() == "TypeAsJen") {
+				return
+			}
+			n++
+			if o.Name() == "toCodeBasic" {
+				bad = p.PosStr(in.Pos()) + ": toCodeBasic called while rendering a zero value"
+				return
+			}
+			for _, a := range c.Common().Args {
+				v := a
+				if mi, isMI := v.(*ssa.MakeInterface); isMI {
+					v = mi.X
+				}
+				if pt, isP := v.Type().(*types.Pointer); isP && isNamed(pt.Elem(), "go/types", "Basic") {
+					bad = p.PosStr(in.Pos()) + ": " + o.Name() + " receives a *types.Basic while rendering a zero value"
+				}
+			}
+		})
+	}
+	site := "xtype.ZeroValue/basic zero values are untyped"
+	if bad != "" {
+		r.Bad(site, p.PosStr(fi.Decl.Pos()), bad+": the zero value of a basic type is spelled with its type — for unsafe.Pointer that is a qualified identifier, and the generated file imports unsafe")
+	} else {
+		r.OK(site, p.PosStr(fi.Decl.Pos()), fmt.Sprintf("%d type renderings, all of composite types", n))
+	}
+}
